@@ -1,0 +1,52 @@
+// Copyright (C) The Arvados Authors. All rights reserved.
+//
+// SPDX-License-Identifier: AGPL-3.0
+
+//go:build verif
+// +build verif
+
+// Machine-checked contracts (read by /verif/bin/govc; never compiled into
+// normal builds).  See /verif/DESIGN.md section 3 for the language.
+
+package federation
+
+//@ func errStatus trusted pure
+//@   modifies nothing
+//@ iface backend.APIClientAuthorizationCurrent
+//@   modifies nothing
+//@ pure auth.FromContext auth.NewContext arvados.APIClientAuthorization.TokenV2
+
+// ------------------------------------------------------------------- C19
+// The token list sent to remote cluster remoteID.  For every incoming token
+// exactly one outgoing token is produced (or the whole request fails):
+//   SaltToken succeeded            -> the salted token
+//   ErrSalted / ErrTokenFormat     -> the token itself (already salted / not an Arvados token)
+//   ErrObsoleteToken (legacy form) -> the token itself only if the local lookup says 401
+//                                     or its v2 uuid belongs to the remote; otherwise the
+//                                     salted form of its locally resolved v2 token
+//   anything else                  -> error, nothing is sent.
+//@ func saltedTokenProvider$1 property C19 safety -bounds
+//@   ghost serr error = nil
+//@   ghost sres string = ""
+//@   ghost status int = 0
+//@   ghost aerr error = nil
+//@   ghost s2err error = nil
+//@   ghost s2res string = ""
+//@   calls auth.SaltToken#1: requires $0 == token && $1 == remoteID
+//@   calls auth.SaltToken#1: set serr = $r1
+//@   calls auth.SaltToken#1: set sres = $r0
+//@   calls errStatus#1: set status = $r
+//@   calls backend.APIClientAuthorizationCurrent#1: set aerr = $r1
+//@   calls auth.SaltToken#2: requires $1 == remoteID && serr == auth.ErrObsoleteToken && aerr == nil && status != 401
+//@   calls auth.SaltToken#2: set s2err = $r1
+//@   calls auth.SaltToken#2: set s2res = $r0
+//@   calls append#1: requires serr == nil && $1[0] == sres
+//@   calls append#2: requires serr == auth.ErrSalted && $1[0] == token
+//@   calls append#3: requires serr == auth.ErrTokenFormat && $1[0] == token
+//@   calls append#4: requires serr == auth.ErrObsoleteToken && status == 401 && $1[0] == token
+//@   calls append#5: requires serr == auth.ErrObsoleteToken && aerr == nil && strings.HasPrefix(aca.UUID, remoteID) && $1[0] == token
+//@   calls append#6: requires serr == auth.ErrObsoleteToken && s2err == nil && $1[0] == s2res
+//@   ghost n int = 0
+//@   calls append#*: set n = n + 1
+//@   loop 1: invariant n == $i && len(tokens) == n
+//@   ensures result1 == nil ==> len(result0) == n
